@@ -1,16 +1,20 @@
 (* Specification vocabulary for the control-file wrappers of C07 with the real relations branch:
    format_field with C13's model of Relations::wrap_and_sort in place of the parameter, and the
    control files the theorems speak about.  Definitions only. *)
-From V.model Require Import Base Deb822Lex Deb822Parse Grammar Lossy LossySpec Deb822Edit LiveDoc Deb822Wrap WrapSpec.
+From V.model Require Import Base Deb822Lex Deb822Parse Grammar Lossy LossySpec Deb822Edit LiveDoc Deb822Wrap WrapSpec WrapSpecInst.
 From V.model Require RelGrammar RelWrap RelWrapSpec.
 
-(* value.parse_relaxed(true) with no error tolerated, wrap_and_sort(), to_string(): RelWrap.ctl_rel *)
-Definition real_rel : str -> res str := RelWrap.ctl_rel RelWrap.fixed.
+(* the relationship arm of format_field: Relations::parse_relaxed(value, true); with errors the
+   value as it is (C07-22), else wrap_and_sort(), to_string(): RelWrap.ctl_rel, whose Panic 20 is
+   "the parser reported errors" *)
+Definition real_rel : str -> res str := rel_arm fixed (RelWrap.ctl_rel RelWrap.fixed).
 (* format_field of debian-control/src/lossless/control.rs, no parameter left *)
 Definition real_format_field : str -> str -> res str := format_field fixed real_rel.
 (* Control::wrap_and_sort, Source::wrap_and_sort / Binary::wrap_and_sort *)
-Definition real_control_ws (c : wcfg) (t : tree) : res tree := control_ws fixed real_rel (c_ind c) (c_iel c) (c_mll c) t.
-Definition real_control_para_ws (c : wcfg) (p : tree) : res tree := control_para_ws fixed real_rel (c_ind c) (c_iel c) (c_mll c) p.
+Definition real_control_ws (c : wcfg) (t : tree) : res tree :=
+  control_ws fixed (RelWrap.ctl_rel RelWrap.fixed) (c_ind c) (c_iel c) (c_mll c) t.
+Definition real_control_para_ws (c : wcfg) (p : tree) : res tree :=
+  control_para_ws fixed (RelWrap.ctl_rel RelWrap.fixed) (c_ind c) (c_iel c) (c_mll c) p.
 
 (* the formatter as a function (the empty text where format_field panics: never used on the
    control files below) *)
@@ -25,9 +29,12 @@ Definition field_input (f : field) : str := value_text (field_ws0 f) (f_first f)
    in its whitespace slots -- the continuation-line breaks are among them --, substitution
    variables, empty entries, trailing comma ...) in C13's safe domain (no digit run above 2^31-1
    in a version); the Uploaders formatter's output is shaped on every Uploaders field (no empty
-   piece between commas).  Every other field is arbitrary. *)
+   piece between commas; a piece may start with '#': C07-21).  Every other field is arbitrary.
+   (A relationship field the relations parser rejects is returned as it is -- C07-22,
+   C07_control_unparsable_relation_kept --; it is not in this domain: that the parser rejects the
+   re-laid-out value too is not a theorem of C13.) *)
 Definition ctl_field_ok (f : field) : Prop :=
-  if str_eqb (f_name f) Lit.k_Uploaders then shaped (fmt_uploaders (field_input f)) = true
+  if str_eqb (f_name f) Lit.k_Uploaders then shaped (fmt_uploaders_h (field_input f)) = true
   else if existsb (str_eqb (f_name f)) (Lit.relation_fields true) then
     exists rf, RelGrammar.wf_rfield true rf = true /\ RelWrapSpec.field_safe rf = true /\
                field_input f = RelGrammar.rrender rf
@@ -35,3 +42,37 @@ Definition ctl_field_ok (f : field) : Prop :=
 Definition ctl_items_ok (its : list item) : Prop := forall f, In (IField f) its -> ctl_field_ok f.
 Definition ctl_doc_ok (l : ldocl) : Prop := forall its, In (LPara its) l -> ctl_items_ok its.
 
+
+(* ---------------------------------------------------------------- what is proved of every field of such a file; formatters that absorb the re-layout on a document *)
+(* ---------------------------------------------------------------- format_field, branch by branch *)
+Definition is_rel_field (name : str) : bool := existsb (str_eqb name) (Lit.relation_fields true).
+Definition field_facts (c : wcfg) (f : field) : Prop :=
+  real_format_field (f_name f) (field_input f) = Ok (ctl_total (f_name f) (field_input f)) /\
+  fmt_shaped_on (Some ctl_total) f = true /\
+  field_stable c (Some ctl_total) f /\ fmt_lexes (Some ctl_total) (a_ws_field c (Some ctl_total) f) /\
+  real_format_field (f_name f) (field_input (a_ws_field c (Some ctl_total) f))
+    = Ok (ctl_total (f_name f) (field_input (a_ws_field c (Some ctl_total) f))) /\
+  (str_eqb (f_name f) Lit.k_Uploaders = false -> is_rel_field (f_name f) = false -> a_value (Some ctl_total) f = field_value f).
+(* ---------------------------------------------------------------- (3) idempotence with any formatter: what it takes *)
+(* The formatter absorbs the re-layout ON THIS DOCUMENT: on every field, its output does not start
+   with a blank or a line break, and it gives the same output when that output comes back with
+   blanks / line breaks in front (all the re-layout of a value adds).  Weaker than [absorbing]: a
+   formatter may treat fields of different names differently (format_field does). *)
+Definition absorbs_on (g : str -> str -> str) (l : ldocl) : Prop :=
+  forall its f, In (LPara its) l -> In (IField f) its ->
+    let o := g (f_name f) (field_input f) in
+    (forall lead, forallb lead_char lead = true -> g (f_name f) (lead ++ o) = o) /\
+    match o with [] => True | ch :: _ => lead_char ch = false end.
+(* ... and it does take something: a formatter that appends "!" is shaped, and every application
+   appends another one *)
+Module WF.
+  Import Coq.Strings.String.
+  Local Open Scope string_scope.
+  Definition bang (k v : str) : str := (v ++ Lit.s2l "!")%list.
+  Definition d_bang : doc := [BPara (mk_field (Lit.s2l "A") (Lit.s2l " ") (Lit.s2l "b") [] true) []].
+  Definition c2 : wcfg := mk_wcfg (Spaces 2) false None.
+  Definition once : str := Lit.s2l "A: b!
+".
+  Definition twice : str := Lit.s2l "A: b!!
+".
+End WF.
